@@ -300,6 +300,13 @@ func (g *gen) stmt(p path, s ast.Stmt) []path {
 				ok = "tail"
 			} else {
 				ok = "false"
+				// `return x, err` where err was last assigned by a call whose outcome this path
+				// has already tested (`if err != nil { return ... }` not taken): a nil error
+				if id, isID := last.(*ast.Ident); isID {
+					if idx, has := q.lastCallFor[id.Name]; has && q.evs[idx].kind == "Call" && q.evs[idx].flag == "OK" {
+						ok = "true"
+					}
+				}
 			}
 		}
 		q.evs = append(q.evs, ev{"Ret", "", ok})
